@@ -358,13 +358,48 @@ class FakeFile:
         return False
 
 
-def fake_open_factory(path, content, log):
+def fake_open_factory(path, content, log, real_open=None):
     def fake_open(file=None, mode="r", encoding=None, *a, **k):
-        log.append((file, mode, encoding))
-        if file != path:
+        try:
+            name = os.fspath(file)
+        except TypeError:
+            name = file
+        if isinstance(name, str) and os.path.isabs(name) and real_open is not None:
+            return real_open(file, mode, *a, encoding=encoding, **k)     # not the library reading its input (tooling, linecache)
+        log.append((name, mode, encoding))
+        if name != path:
             raise FileNotFoundError(file)
         return FakeFile(content)
     return fake_open
+
+
+class fake_fs:
+    """file-system stub for is_path=True: the relative path `path` holds `content` (possibly symbolic). Installed as the
+    module global `open` of pregex.core.pre and as builtins.open / io.open (pathlib reads through io.open), so the stub is
+    hit whichever way the library opens the file; every other relative path does not exist"""
+
+    def __init__(self, path, content, log):
+        self.args = (path, content, log)
+
+    def __enter__(self):
+        import builtins, io
+        import pregex.core.pre as pm
+        self.saved = (builtins.open, io.open, pm.__dict__.get("open", None))
+        f = fake_open_factory(*self.args, real_open=self.saved[0])
+        pm.open = f
+        builtins.open = f
+        io.open = f
+        return self
+
+    def __exit__(self, *a):
+        import builtins, io
+        import pregex.core.pre as pm
+        builtins.open, io.open = self.saved[0], self.saved[1]
+        if self.saved[2] is None:
+            pm.__dict__.pop("open", None)
+        else:
+            pm.open = self.saved[2]
+        return False
 
 
 def concrete_call(f, *args):
